@@ -511,6 +511,582 @@ theorem fromUc_renames (lines : List (List String)) (fasta : List String) (t t' 
           · have := dedup_length_lt ids hn
             exact absurd (by omega) hd
 
+/-! ### the adjacency predicate holds of the model -/
+
+theorem adjRecord_of_valid (l : AdjLine) (h : adjValid l = true) : adjRecord l = .ok (adjRecOf l) := by
+  obtain ⟨fields, num⟩ := l
+  simp only [adjValid, Bool.and_eq_true, beq_iff_eq] at h
+  obtain ⟨hl, hn⟩ := h
+  obtain ⟨v, rfl⟩ := Option.isSome_iff_exists.mp hn
+  match fields, hl with
+  | [o, s, x], _ => simp [adjRecord, adjRecOf]
+
+theorem adjRecord_of_invalid (l : AdjLine) (h : adjValid l = false) : ∃ e, adjRecord l = .error e := by
+  obtain ⟨fields, num⟩ := l
+  match fields, num with
+  | [], _ => exact ⟨_, rfl⟩
+  | [_], _ => exact ⟨_, rfl⟩
+  | [_, _], _ => exact ⟨_, rfl⟩
+  | [_, _, _], none => exact ⟨_, rfl⟩
+  | [_, _, _], some v => simp [adjValid] at h
+  | _ :: _ :: _ :: _ :: _, _ => exact ⟨_, rfl⟩
+
+theorem mapM_adjRecord_ok (body : List AdjLine) (h : body.all adjValid = true) :
+    body.mapM adjRecord = .ok (body.map adjRecOf) := by
+  induction body with
+  | nil => rfl
+  | cons l ls ih =>
+    simp only [List.all_cons, Bool.and_eq_true] at h
+    rw [List.mapM_cons, adjRecord_of_valid l h.1, ih h.2]
+    rfl
+
+theorem mapM_adjRecord_err (body : List AdjLine) (h : body.all adjValid = false) :
+    ∃ e, body.mapM adjRecord = .error e := by
+  induction body with
+  | nil => simp at h
+  | cons l ls ih =>
+    rw [List.mapM_cons]
+    cases hv : adjValid l with
+    | false =>
+      obtain ⟨e, he⟩ := adjRecord_of_invalid l hv
+      exact ⟨e, by rw [he]; rfl⟩
+    | true =>
+      rw [adjRecord_of_valid l hv]
+      simp only [List.all_cons, hv, Bool.true_and] at h
+      obtain ⟨e, he⟩ := ih h
+      exact ⟨e, by rw [he]; rfl⟩
+
+theorem sortedB_of_pairwise (l : List String) (h : l.Pairwise (· < ·)) : sortedB l = true := by
+  induction l with
+  | nil => rfl
+  | cons a as ih =>
+    rw [List.pairwise_cons] at h
+    cases as with
+    | nil => rfl
+    | cons b bs =>
+      simp only [sortedB, Bool.and_eq_true, decide_eq_true_eq]
+      exact ⟨h.1 b (List.mem_cons_self), ih h.2⟩
+
+theorem sameMembers_of_iff (a b : List String) (h : ∀ x, x ∈ a ↔ x ∈ b) : sameMembers a b = true := by
+  simp only [sameMembers, Bool.and_eq_true, List.all_eq_true, List.contains_iff_mem]
+  exact ⟨fun x hx => (h x).mp hx, fun x hx => (h x).mpr hx⟩
+
+theorem adjTable_wfb (recs : List (String × String × Rat)) : (adjTable recs).wfb = true := by
+  simp only [Table.wfb, adjTable, adjGrid, tabulate_length, beq_self_eq_true, Bool.true_and, Bool.and_true]
+  have := (gridIs_iff _ _ _).mp (gridIs_tabulate (sortDedup (recs.map (·.1))).length
+    (sortDedup (recs.map (·.2.1))).length
+    (cellSum (adjTriples (sortDedup (recs.map (·.1))) (sortDedup (recs.map (·.2.1))) recs)))
+  simpa [List.all_eq_true] using this.2
+
+theorem holdsAdj_accept (lines : List AdjLine) (recs : List (String × String × Rat))
+    (hres : fromAdjacency lines = .ok (adjTable recs)) :
+    (match fromAdjacency lines with
+     | .error _ => some "adjacency_accept"
+     | .ok t => allV [
+        chk "adjacency_ids" (sortedB t.obs && sortedB t.samp && sameMembers t.obs (recs.map (·.1)) &&
+          sameMembers t.samp (recs.map (·.2.1)) && t.wfb),
+        chk "adjacency_cell" (t.obs.all fun o => t.samp.all fun s => t.cell? o s == some (adjSum recs o s))]) = none := by
+  rw [hres]
+  obtain ⟨h1, h2, h3, h4⟩ := adjacency_ids recs
+  have hids : (sortedB (adjTable recs).obs && sortedB (adjTable recs).samp &&
+      sameMembers (adjTable recs).obs (recs.map (·.1)) && sameMembers (adjTable recs).samp (recs.map (·.2.1)) &&
+      (adjTable recs).wfb) = true := by
+    rw [sortedB_of_pairwise _ h1, sortedB_of_pairwise _ h2, sameMembers_of_iff _ _ h3,
+      sameMembers_of_iff _ _ h4, adjTable_wfb]; rfl
+  have hcells : ((adjTable recs).obs.all fun o => (adjTable recs).samp.all fun s =>
+      (adjTable recs).cell? o s == some (adjSum recs o s)) = true := by
+    rw [List.all_eq_true]; intro o ho
+    rw [List.all_eq_true]; intro s hs
+    rw [adjacency_cell recs o s ho hs]; simp
+  simp only [hids, hcells, allV, chk, Verdict.and, List.foldl, if_true]
+
+theorem fromAdjacency_no_records (lines : List AdjLine) (h : adjBody lines = .ok []) :
+    noTable (fromAdjacency lines) = true := by
+  simp [fromAdjacency, h, bind, Except.bind, List.mapM_nil, pure, Except.pure, adjTriples, cooArraysToSparse, noTable]
+
+theorem fromAdjacency_bad_record (lines body : List AdjLine) (h : adjBody lines = .ok body)
+    (hv : body.all adjValid = false) : noTable (fromAdjacency lines) = true := by
+  obtain ⟨e, he⟩ := mapM_adjRecord_err body hv
+  simp [fromAdjacency, h, bind, Except.bind, he, noTable]
+
+theorem fromAdjacency_good (lines body : List AdjLine) (h : adjBody lines = .ok body)
+    (hne : body.isEmpty = false) (hv : body.all adjValid = true) :
+    fromAdjacency lines = .ok (adjTable (body.map adjRecOf)) := by
+  apply adjacency_table lines body _ h (mapM_adjRecord_ok body hv)
+  intro e
+  cases body with
+  | nil => simp at hne
+  | cons _ _ => simp at e
+
+/-- **adj_model_holds.** The adjacency part of the property is true of the model on every document:
+a document without records or with a malformed line gives no table; every other document gives
+the table over the sorted ID sets whose cells are the sums of the records naming them. -/
+theorem adj_model_holds (lines : List AdjLine) : holdsAdj lines (fromAdjacency lines) = none := by
+  cases lines with
+  | nil => simp [holdsAdj, fromAdjacency, adjBody, bind, Except.bind, noTable, chk]
+  | cons l0 rest =>
+    simp only [holdsAdj]
+    by_cases hh : (l0.fields == adjHeader) = true
+    · have hf : l0.fields = adjHeader := by simpa using hh
+      have hbody : adjBody (l0 :: rest) = .ok rest := by
+        simp [adjBody, hf, adjHeader]
+      simp only [hh, if_true]
+      by_cases hbad : (rest.isEmpty || !rest.all adjValid) = true
+      · rw [if_pos hbad]
+        simp only [Bool.or_eq_true, Bool.not_eq_true'] at hbad
+        rcases hbad with he | hv
+        · have : rest = [] := by simpa using he
+          subst this
+          rw [fromAdjacency_no_records _ hbody]; rfl
+        · rw [fromAdjacency_bad_record _ rest hbody hv]; rfl
+      · rw [if_neg hbad]
+        simp only [Bool.or_eq_true, Bool.not_eq_true', not_or, Bool.not_eq_true, Bool.not_eq_false] at hbad
+        exact holdsAdj_accept _ _ (fromAdjacency_good _ rest hbody hbad.1 hbad.2)
+    · have hf : l0.fields ≠ adjHeader := by simpa using hh
+      simp only [hh, Bool.false_eq_true, if_false]
+      by_cases hbad : ((l0 :: rest).isEmpty || !(l0 :: rest).all adjValid) = true
+      · rw [if_pos hbad]
+        have hv : (l0 :: rest).all adjValid = false := by
+          cases hx : (l0 :: rest).all adjValid with
+          | false => rfl
+          | true => rw [hx] at hbad; simp at hbad
+        by_cases h3 : l0.fields.length = 3
+        · cases hn : l0.num with
+          | none => simp [fromAdjacency, adjBody, h3, hf, hn, bind, Except.bind, noTable, chk]
+          | some v =>
+            have hbody : adjBody (l0 :: rest) = .ok (l0 :: rest) := by simp [adjBody, h3, hf, hn]
+            rw [fromAdjacency_bad_record _ _ hbody hv]; rfl
+        · simp [fromAdjacency, adjBody, h3, bind, Except.bind, noTable, chk]
+      · rw [if_neg hbad]
+        have hv : (l0 :: rest).all adjValid = true := by
+          cases hx : (l0 :: rest).all adjValid with
+          | true => rfl
+          | false => rw [hx] at hbad; simp at hbad
+        have hv0 : adjValid l0 = true := by
+          simp only [List.all_cons, Bool.and_eq_true] at hv; exact hv.1
+        simp only [adjValid, Bool.and_eq_true, beq_iff_eq] at hv0
+        have hbody : adjBody (l0 :: rest) = .ok (l0 :: rest) := by
+          simp [adjBody, hv0.1, hf, hv0.2]
+        exact holdsAdj_accept _ _ (fromAdjacency_good _ _ hbody rfl hv)
+
+/-! ### the uc predicate holds of the model -/
+
+theorem sampleOf_isSome_iff (q : String) : (sampleOf q).isSome = true ↔ '_' ∈ q.toList := by
+  simp only [sampleOf, Option.isSome_map]
+  cases h : beforeLastUnderscore q.toList with
+  | none => simp [(beforeLast_none q.toList).mp h]
+  | some p =>
+    have : ¬ ('_' ∉ q.toList) := fun hn => by rw [(beforeLast_none q.toList).mpr hn] at h; cases h
+    simp only [Option.isSome_some, true_iff]
+    exact Decidable.not_not.mp this
+
+theorem ucStep_err (st : UcState) (r : UcRec) (h1 : isHS r = true) (h2 : sampleOf r.query = none) :
+    ucStep st r = .error .value := by
+  simp [ucStep, h1, h2]
+
+theorem ucFold_err (rs : List UcRec) : ∀ st : UcState,
+    (∃ r ∈ rs, isHS r = true ∧ sampleOf r.query = none) → ∃ e, ucFold st rs = .error e := by
+  induction rs with
+  | nil => intro st h; obtain ⟨r, hr, _⟩ := h; cases hr
+  | cons r rs ih =>
+    intro st h
+    simp only [ucFold]
+    cases hs : ucStep st r with
+    | error e => exact ⟨e, rfl⟩
+    | ok st1 =>
+      obtain ⟨r', hr', h1, h2⟩ := h
+      rcases List.mem_cons.mp hr' with e | hmem
+      · subst e
+        rw [ucStep_err st r' h1 h2] at hs; cases hs
+      · obtain ⟨e, he⟩ := ih st1 ⟨r', hmem, h1, h2⟩
+        exact ⟨e, by simp only [bind, Except.bind, he]⟩
+
+theorem isSampleOf_iff (q s : String) : isSampleOf q s = true ↔ sampleOf q = some s := by
+  constructor
+  · intro h
+    simp only [isSampleOf, Bool.and_eq_true] at h
+    obtain ⟨hp, hd⟩ := h
+    have hpre : s.toList <+: q.toList := List.isPrefixOf_iff_prefix.mp hp
+    obtain ⟨t, ht⟩ := hpre
+    rw [← ht, List.drop_left] at hd
+    cases t with
+    | nil => simp at hd
+    | cons c rest =>
+      by_cases hc : c = '_'
+      · subst hc
+        have hn : '_' ∉ rest := by simpa using hd
+        simp only [sampleOf, ← ht, beforeLast_spec s.toList rest hn, Option.map_some, String.ofList_toList]
+      · exfalso
+        split at hd
+        · rename_i heq
+          exact hc (List.cons.inj heq).1
+        · cases hd
+  · intro h
+    simp only [sampleOf, Option.map_eq_some_iff] at h
+    obtain ⟨p, hp, hs⟩ := h
+    obtain ⟨rest, hq, hn⟩ := beforeLast_some q.toList p hp
+    have hsl : s.toList = p := by rw [← hs, String.toList_ofList]
+    simp only [isSampleOf, hsl, hq, Bool.and_eq_true]
+    refine ⟨List.isPrefixOf_iff_prefix.mpr (List.prefix_append _ _), ?_⟩
+    rw [List.drop_left]
+    simpa using hn
+
+theorem ucCount_some (recs : List UcRec) (o s : String) :
+    ucCount (fun x => some x) recs o s = ((ucCnt recs o s : Nat) : Rat) := by
+  simp only [ucCount, ucCnt]
+  congr 2
+  apply List.filter_congr
+  intro r _
+  have e1 : (some r.seed == some o) = (r.seed == o) := by
+    by_cases h : r.seed = o <;> simp [h]
+  have e2 : isSampleOf r.query s = (sampleOf r.query == some s) := by
+    cases hb : isSampleOf r.query s with
+    | true => simp [(isSampleOf_iff _ _).mp hb]
+    | false =>
+      have : ¬ sampleOf r.query = some s := fun e => by rw [(isSampleOf_iff _ _).mpr e] at hb; cases hb
+      simp [this]
+  rw [e1, e2]
+
+theorem labelsOk_some (recs : List UcRec) : labelsOk (fun x => some x) recs = true := by
+  simp only [labelsOk, Option.isSome_some, List.all_eq_true, Bool.and_eq_true, Bool.or_eq_true,
+    bne_iff_ne, ne_eq, beq_iff_eq]
+  refine ⟨fun _ _ => trivial, ?_⟩
+  intro r1 _ r2 _
+  by_cases h : r1.seed = r2.seed
+  · exact Or.inr h
+  · left; intro e; exact h (Option.some.inj e)
+
+theorem ucTable_wfb (st : UcState) : (ucTable st).wfb = true := by
+  simp only [Table.wfb, ucTable, tabulate_length, beq_self_eq_true, Bool.true_and, Bool.and_true]
+  have := (gridIs_iff _ _ _).mp (gridIs_tabulate st.obsIds.length st.sampIds.length
+    (fun i j => (st.data.lookup (i, j)).getD 0))
+  simpa [List.all_eq_true] using this.2
+
+theorem mapM_option_none (f : String → Option String) (l : List String) (h : ∃ x ∈ l, f x = none) :
+    l.mapM f = none := by
+  induction l with
+  | nil => obtain ⟨x, hx, _⟩ := h; cases hx
+  | cons a as ih =>
+    rw [List.mapM_cons]
+    obtain ⟨x, hx, hn⟩ := h
+    cases hfa : f a with
+    | none => rfl
+    | some y =>
+      rcases List.mem_cons.mp hx with e | hmem
+      · subst e; rw [hn] at hfa; cases hfa
+      · rw [ih ⟨x, hmem, hn⟩]; rfl
+
+theorem mapM_option_some (f : String → Option String) (l : List String) (h : ∀ x ∈ l, (f x).isSome = true) :
+    l.mapM f = some (l.map (fun x => (f x).getD "")) := by
+  induction l with
+  | nil => rfl
+  | cons a as ih =>
+    rw [List.mapM_cons, ih (fun x hx => h x (List.mem_cons_of_mem _ hx))]
+    obtain ⟨y, hy⟩ := Option.isSome_iff_exists.mp (h a (List.mem_cons_self))
+    simp [hy]
+
+theorem lookupBy_map_inj {β : Type} (g : String → String) (l : List String) (xs : List β) (a : String)
+    (hinj : ∀ x ∈ l, ∀ y ∈ l, g x = g y → x = y) (ha : a ∈ l) :
+    lookupBy (l.map g) xs (g a) = lookupBy l xs a := by
+  induction l generalizing xs with
+  | nil => cases ha
+  | cons b bs ih =>
+    cases xs with
+    | nil => simp [lookupBy]
+    | cons x xs' =>
+      simp only [List.map_cons, lookupBy]
+      by_cases hb : b = a
+      · subst hb; simp
+      · have hne : ¬ g b = g a := fun e => hb (hinj b (List.mem_cons_self) a ha e)
+        have ha' : a ∈ bs := by
+          rcases List.mem_cons.mp ha with e | e
+          · exact absurd e.symm hb
+          · exact e
+        simp only [hb, hne, if_false]
+        exact ih xs' (fun x hx y hy => hinj x (List.mem_cons_of_mem _ hx) y (List.mem_cons_of_mem _ hy)) ha'
+
+theorem nodup_map_of_inj (g : String → String) (l : List String) (hn : l.Nodup)
+    (hinj : ∀ x ∈ l, ∀ y ∈ l, g x = g y → x = y) : (l.map g).Nodup := by
+  induction l with
+  | nil => exact List.nodup_nil
+  | cons b bs ih =>
+    rw [List.nodup_cons] at hn
+    rw [List.map_cons, List.nodup_cons]
+    refine ⟨?_, ih hn.2 (fun x hx y hy => hinj x (List.mem_cons_of_mem _ hx) y (List.mem_cons_of_mem _ hy))⟩
+    intro hmem
+    rw [List.mem_map] at hmem
+    obtain ⟨c, hc, e⟩ := hmem
+    have := hinj c (List.mem_cons_of_mem _ hc) b (List.mem_cons_self) e
+    exact hn.1 (this ▸ hc)
+
+theorem inj_of_nodup_map (g : String → String) (l : List String) (hn : (l.map g).Nodup) :
+    ∀ x ∈ l, ∀ y ∈ l, g x = g y → x = y := by
+  induction l with
+  | nil => intro x hx; cases hx
+  | cons b bs ih =>
+    rw [List.map_cons, List.nodup_cons] at hn
+    intro x hx y hy e
+    rcases List.mem_cons.mp hx with rfl | hx' <;> rcases List.mem_cons.mp hy with rfl | hy'
+    · rfl
+    · exact absurd (e ▸ List.mem_map_of_mem hy' : g x ∈ bs.map g) hn.1
+    · exact absurd (e ▸ List.mem_map_of_mem hx' : g y ∈ bs.map g) hn.1
+    · exact ih hn.2 x hx' y hy' e
+
+theorem ucTable_cell (st : UcState) (recs : List UcRec) (inv : UcInv st recs) :
+    ∀ o ∈ st.obsIds, ∀ s ∈ st.sampIds, (ucTable st).cell? o s = some ((ucCnt recs o s : Nat) : Rat) := by
+  intro o ho s hs
+  have hi := List.idxOf_lt_length_iff.mpr ho
+  have hj := List.idxOf_lt_length_iff.mpr hs
+  have hcell := cell_of_grid (ucTable st)
+    _ _ _ (gridIs_tabulate _ _ _) rfl inv.nodupO inv.nodupS rfl rfl _ _ hi hj
+  simp only [ucTable] at hcell ⊢
+  rw [getD_idxOf _ o ho, getD_idxOf _ s hs] at hcell
+  rw [hcell, cellD_tabulate _ _ _ _ _ hi hj]
+  exact congrArg some (inv.count o ho s hs)
+
+/-- the table after renaming the seeds through `g` -/
+def renamed (st : UcState) (g : String → String) : Table Rat :=
+  { ucTable st with obs := st.obsIds.map g }
+
+/-- the checks of `holdsUc` on the renamed table, for any labelling that is injective on the seeds -/
+theorem uc_checks (recs : List UcRec) (st : UcState) (inv : UcInv st recs)
+    (hq : ∀ r ∈ recs, isHS r = true → (sampleOf r.query).isSome = true)
+    (label : String → Option String) (g : String → String)
+    (hlab : ∀ o ∈ st.obsIds, label o = some (g o))
+    (hinj : ∀ a ∈ st.obsIds, ∀ b ∈ st.obsIds, g a = g b → a = b) :
+    allV [
+      chk "uc_ids" (distinct (renamed st g).obs && distinct (renamed st g).samp &&
+        (renamed st g).obs.all (fun o => recs.any (fun r => label r.seed == some o)) &&
+        recs.all (fun r => (renamed st g).obs.any (fun o => label r.seed == some o)) &&
+        (recs.filter isHS).all (fun r => (renamed st g).samp.any (isSampleOf r.query)) &&
+        (renamed st g).samp.all (fun s => (recs.filter isHS).any (fun r => isSampleOf r.query s)) &&
+        (renamed st g).wfb),
+      chk "uc_cell" ((renamed st g).obs.all fun o => (renamed st g).samp.all fun s =>
+        (renamed st g).cell? o s == some (ucCount label recs o s))] = none := by
+  have hseed : ∀ r ∈ recs, r.seed ∈ st.obsIds := fun r hr => (inv.seeds r.seed).mpr ⟨r, hr, rfl⟩
+  have hids : (distinct (renamed st g).obs && distinct (renamed st g).samp &&
+      (renamed st g).obs.all (fun o => recs.any (fun r => label r.seed == some o)) &&
+      recs.all (fun r => (renamed st g).obs.any (fun o => label r.seed == some o)) &&
+      (recs.filter isHS).all (fun r => (renamed st g).samp.any (isSampleOf r.query)) &&
+      (renamed st g).samp.all (fun s => (recs.filter isHS).any (fun r => isSampleOf r.query s)) &&
+      (renamed st g).wfb) = true := by
+    simp only [Bool.and_eq_true]
+    refine ⟨⟨⟨⟨⟨⟨?_, ?_⟩, ?_⟩, ?_⟩, ?_⟩, ?_⟩, ?_⟩
+    · simp only [distinct, renamed]
+      exact decide_eq_true (nodup_map_of_inj g _ inv.nodupO hinj)
+    · simp only [distinct, renamed, ucTable]; exact decide_eq_true inv.nodupS
+    · rw [List.all_eq_true]; intro o ho
+      simp only [renamed, List.mem_map] at ho
+      obtain ⟨o0, ho0, rfl⟩ := ho
+      obtain ⟨r, hr, e⟩ := (inv.seeds o0).mp ho0
+      rw [List.any_eq_true]
+      exact ⟨r, hr, by rw [e, hlab o0 ho0]; simp⟩
+    · rw [List.all_eq_true]; intro r hr
+      rw [List.any_eq_true]
+      refine ⟨g r.seed, ?_, by rw [hlab _ (hseed r hr)]; simp⟩
+      simp only [renamed]; exact List.mem_map_of_mem (hseed r hr)
+    · rw [List.all_eq_true]; intro r hr
+      rw [List.mem_filter] at hr
+      obtain ⟨s, hs⟩ := Option.isSome_iff_exists.mp (hq r hr.1 hr.2)
+      rw [List.any_eq_true]
+      exact ⟨s, (inv.samples s).mpr ⟨r, hr.1, hr.2, hs⟩, (isSampleOf_iff _ _).mpr hs⟩
+    · rw [List.all_eq_true]; intro s hs
+      obtain ⟨r, hr, hh, e⟩ := (inv.samples s).mp hs
+      rw [List.any_eq_true]
+      exact ⟨r, List.mem_filter.mpr ⟨hr, hh⟩, (isSampleOf_iff _ _).mpr e⟩
+    · have := ucTable_wfb st
+      simpa [Table.wfb, renamed, ucTable] using this
+  have hcell : ((renamed st g).obs.all fun o => (renamed st g).samp.all fun s =>
+      (renamed st g).cell? o s == some (ucCount label recs o s)) = true := by
+    rw [List.all_eq_true]; intro o ho
+    rw [List.all_eq_true]; intro s hs
+    simp only [renamed, List.mem_map] at ho
+    obtain ⟨o0, ho0, rfl⟩ := ho
+    have hs' : s ∈ st.sampIds := hs
+    have h1 : (renamed st g).cell? (g o0) s = (ucTable st).cell? o0 s := by
+      simp only [Table.cell?, Table.row?, renamed, ucTable]
+      rw [lookupBy_map_inj g st.obsIds _ o0 hinj ho0]
+    have h2 : ucCount label recs (g o0) s = ((ucCnt recs o0 s : Nat) : Rat) := by
+      simp only [ucCount, ucCnt]
+      congr 2
+      apply List.filter_congr
+      intro r hr
+      have e1 : (label r.seed == some (g o0)) = (r.seed == o0) := by
+        rw [hlab _ (hseed r hr)]
+        by_cases h : r.seed = o0
+        · simp [h]
+        · have : ¬ g r.seed = g o0 := fun e => h (hinj _ (hseed r hr) _ ho0 e)
+          rw [show (some (g r.seed) == some (g o0)) = (g r.seed == g o0) by simp,
+            beq_eq_false_iff_ne.mpr this, beq_eq_false_iff_ne.mpr h]
+      have e2 : isSampleOf r.query s = (sampleOf r.query == some s) := by
+        cases hb : isSampleOf r.query s with
+        | true => simp [(isSampleOf_iff _ _).mp hb]
+        | false =>
+          have : ¬ sampleOf r.query = some s := fun e => by rw [(isSampleOf_iff _ _).mpr e] at hb; cases hb
+          simp [this]
+      rw [e1, e2]
+    rw [h1, h2, ucTable_cell st recs inv o0 ho0 s hs']; simp
+  simp only [hids, hcell, allV, chk, Verdict.and, List.foldl, if_true]
+
+theorem renamed_id (st : UcState) : renamed st (fun x => x) = ucTable st := by
+  simp [renamed, ucTable]
+
+theorem renameObs_ok (st : UcState) (m : List (String × String)) (hm : m ≠ [])
+    (hall : ∀ o ∈ st.obsIds, (mapGet m o).isSome = true)
+    (hnd : (st.obsIds.map (fun o => (mapGet m o).getD "")).Nodup) :
+    renameObs (ucTable st) m = .ok (renamed st (fun o => (mapGet m o).getD "")) := by
+  have he : m.isEmpty = false := by
+    cases m with
+    | nil => exact absurd rfl hm
+    | cons _ _ => rfl
+  have hmap : (ucTable st).obs.mapM (mapGet m) = some (st.obsIds.map (fun o => (mapGet m o).getD "")) :=
+    mapM_option_some (mapGet m) st.obsIds hall
+  simp only [renameObs, he, Bool.false_eq_true, if_false, hmap, dedup_of_nodup _ hnd, ne_eq,
+    not_true_eq_false, renamed]
+
+theorem renameObs_err (st : UcState) (m : List (String × String))
+    (h : (∃ o ∈ st.obsIds, mapGet m o = none) ∨
+         ¬ (st.obsIds.map (fun o => (mapGet m o).getD "")).Nodup) :
+    ∃ e, renameObs (ucTable st) m = .error e := by
+  simp only [renameObs]
+  split
+  · exact ⟨_, rfl⟩
+  · by_cases hall : ∀ o ∈ st.obsIds, (mapGet m o).isSome = true
+    · have hmap : (ucTable st).obs.mapM (mapGet m) = some (st.obsIds.map (fun o => (mapGet m o).getD "")) :=
+        mapM_option_some (mapGet m) st.obsIds hall
+      have hnd : ¬ (st.obsIds.map (fun o => (mapGet m o).getD "")).Nodup := by
+        rcases h with ⟨o, ho, hn⟩ | h
+        · have := hall o ho; rw [hn] at this; cases this
+        · exact h
+      have := dedup_length_lt _ hnd
+      simp only [hmap]
+      rw [if_pos (by omega)]
+      exact ⟨_, rfl⟩
+    · have : ∃ o ∈ st.obsIds, mapGet m o = none := by
+        apply Classical.byContradiction
+        intro hc
+        apply hall
+        intro o ho
+        cases hx : mapGet m o with
+        | some _ => rfl
+        | none => exact absurd ⟨o, ho, hx⟩ hc
+      have hmap : (ucTable st).obs.mapM (mapGet m) = none := mapM_option_none (mapGet m) st.obsIds this
+      simp only [hmap]
+      exact ⟨_, rfl⟩
+
+/-- **uc_model_holds.** The uc part of the property is true of the model on every document and every
+fasta file (or none): a malformed H/S/L line, an H/S query label without underscore, a malformed
+fasta header, a seed without a label or two seeds with the same label give no table; otherwise the
+table has one row per distinct seed (under its label), one column per distinct sample, and the
+numbers of H/S records as cells. -/
+theorem uc_model_holds (lines : List (List String)) (fasta : Option (List String)) :
+    holdsUc lines fasta (fromUc lines fasta) = none := by
+  simp only [holdsUc]
+  cases hrec : ucRecords lines with
+  | error e =>
+    have : fromUc lines fasta = .error e := by simp [fromUc, parseUc, hrec, bind, Except.bind]
+    simp [this, noTable, chk]
+  | ok recs =>
+    simp only []
+    by_cases hbad : (recs.any (fun r => isHS r && !r.query.toList.contains '_')) = true
+    · rw [if_pos hbad]
+      rw [List.any_eq_true] at hbad
+      obtain ⟨r, hr, hc⟩ := hbad
+      simp only [Bool.and_eq_true, Bool.not_eq_true', List.contains_eq_mem, decide_eq_false_iff_not] at hc
+      have hnone : sampleOf r.query = none := sampleOf_none r.query hc.2
+      obtain ⟨e, he⟩ := ucFold_err recs {} ⟨r, hr, hc.1, hnone⟩
+      have : fromUc lines fasta = .error e := by simp [fromUc, parseUc, hrec, bind, Except.bind, he]
+      simp [this, noTable, chk]
+    · rw [if_neg hbad]
+      have hq : ∀ r ∈ recs, isHS r = true → (sampleOf r.query).isSome = true := by
+        intro r hr hh
+        rw [sampleOf_isSome_iff]
+        by_cases hm : '_' ∈ r.query.toList
+        · exact hm
+        · exfalso; apply hbad
+          rw [List.any_eq_true]
+          exact ⟨r, hr, by simp [hh, hm]⟩
+      obtain ⟨st, hfold, inv⟩ := ucFold_inv recs {} [] ucInv_init hq
+      simp only [List.nil_append] at inv
+      have hcon := construct_dict st.data st.obsIds st.sampIds inv.nodupO inv.nodupS inv.keys inv.range
+      have hres : parseUc lines = .ok (ucTable st) := by
+        simp only [parseUc, hrec, hfold, bind, Except.bind, hcon, ucTable]
+      have hseed : ∀ r ∈ recs, r.seed ∈ st.obsIds := fun r hr => (inv.seeds r.seed).mpr ⟨r, hr, rfl⟩
+      cases fasta with
+      | none =>
+        have hfrom : fromUc lines none = .ok (ucTable st) := by simp [fromUc, hres, bind, Except.bind, pure, Except.pure]
+        simp only [Option.map_none, labelsOk_some, Bool.not_true, Bool.false_eq_true, if_false, hfrom]
+        have := uc_checks recs st inv hq (fun x => some x) (fun x => x) (fun _ _ => rfl) (fun _ _ _ _ e => e)
+        rw [renamed_id] at this
+        exact this
+      | some fl =>
+        simp only [Option.map_some]
+        cases hm : fastaMap fl with
+        | error e =>
+          have : fromUc lines (some fl) = .error e := by simp [fromUc, hres, hm, bind, Except.bind]
+          simp [this, noTable, chk]
+        | ok m =>
+          cases m with
+          | nil => rfl
+          | cons p ps =>
+            have hfrom : fromUc lines (some fl) = renameObs (ucTable st) (p :: ps) := by
+              simp [fromUc, hres, hm, bind, Except.bind]
+            simp only [hfrom]
+            by_cases hok : labelsOk (mapGet (p :: ps)) recs = true
+            · simp only [hok, Bool.not_true, Bool.false_eq_true, if_false]
+              simp only [labelsOk, Bool.and_eq_true, List.all_eq_true, Bool.or_eq_true, bne_iff_ne, ne_eq,
+                beq_iff_eq] at hok
+              have hall : ∀ o ∈ st.obsIds, (mapGet (p :: ps) o).isSome = true := by
+                intro o ho
+                obtain ⟨r, hr, e⟩ := (inv.seeds o).mp ho
+                rw [← e]; exact hok.1 r hr
+              have hlab : ∀ o ∈ st.obsIds, mapGet (p :: ps) o = some ((mapGet (p :: ps) o).getD "") := by
+                intro o ho
+                obtain ⟨y, hy⟩ := Option.isSome_iff_exists.mp (hall o ho)
+                simp [hy]
+              have hinj : ∀ a ∈ st.obsIds, ∀ b ∈ st.obsIds,
+                  (mapGet (p :: ps) a).getD "" = (mapGet (p :: ps) b).getD "" → a = b := by
+                intro a ha b hb e
+                obtain ⟨r1, hr1, e1⟩ := (inv.seeds a).mp ha
+                obtain ⟨r2, hr2, e2⟩ := (inv.seeds b).mp hb
+                rcases hok.2 r1 hr1 r2 hr2 with h | h
+                · exfalso; apply h
+                  rw [e1, e2, hlab a ha, hlab b hb, e]
+                · rw [← e1, ← e2]; exact h
+              rw [renameObs_ok st (p :: ps) (by simp) hall (nodup_map_of_inj _ _ inv.nodupO hinj)]
+              exact uc_checks recs st inv hq (mapGet (p :: ps)) _ hlab hinj
+            · have hok' : labelsOk (mapGet (p :: ps)) recs = false := by
+                cases hx : labelsOk (mapGet (p :: ps)) recs with
+                | false => rfl
+                | true => exact absurd hx hok
+              simp only [hok', Bool.not_false, if_true]
+              have herr : ∃ e, renameObs (ucTable st) (p :: ps) = .error e := by
+                apply renameObs_err
+                by_cases hall : ∀ o ∈ st.obsIds, (mapGet (p :: ps) o).isSome = true
+                · right
+                  intro hnd
+                  have hinj := inj_of_nodup_map _ _ hnd
+                  have : labelsOk (mapGet (p :: ps)) recs = true := by
+                    simp only [labelsOk, Bool.and_eq_true, List.all_eq_true, Bool.or_eq_true, bne_iff_ne,
+                      ne_eq, beq_iff_eq]
+                    refine ⟨fun r hr => hall _ (hseed r hr), ?_⟩
+                    intro r1 hr1 r2 hr2
+                    by_cases hl : mapGet (p :: ps) r1.seed = mapGet (p :: ps) r2.seed
+                    · right
+                      exact hinj _ (hseed r1 hr1) _ (hseed r2 hr2) (by simp only [hl])
+                    · left; exact hl
+                  rw [this] at hok'; cases hok'
+                · left
+                  apply Classical.byContradiction
+                  intro hc
+                  apply hall
+                  intro o ho
+                  cases hx : mapGet (p :: ps) o with
+                  | some _ => rfl
+                  | none => exact absurd ⟨o, ho, hx⟩ hc
+              obtain ⟨e, he⟩ := herr
+              simp [he, noTable, chk]
+
 /-! ### non-vacuity: concrete inputs meet the hypotheses, and the conclusions are not trivial -/
 
 def demoGrid : Grid := [[1, 0, 2], [0, 3, 0]]
